@@ -24,3 +24,5 @@ def run(prog, rep):
     _rio2.run_swapped(prog, rep)
     from ..rules import r_unit as _ru2
     _ru2.run_scale_positions(prog, rep)
+    from ..rules import r_key as _rkx
+    _rkx.run_handles_only(prog, rep)
